@@ -223,6 +223,19 @@ func mpAny(r *gen.Rand, depth int) []byte {
 	}
 }
 
+// one well-formed message
+func mpMsg(key, val string, level uint8, old bool) []byte {
+	out := []byte{0x84}
+	out = append(out, mpStr("key")...)
+	out = append(out, mpStr(key)...)
+	out = append(out, mpStr("value")...)
+	out = append(out, mpStr(val)...)
+	out = append(out, mpStr("level")...)
+	out = append(out, mpUint8(level)...)
+	out = append(out, mpStr("isOldInput")...)
+	return append(out, mpBool(old)...)
+}
+
 func bytesOf(n int, c byte) []byte {
 	b := make([]byte, n)
 	for i := range b {
@@ -319,6 +332,30 @@ func genCookie(r *gen.Rand, w *gen.Writer) string {
 	case 4:
 		w.Count("cookie-empty")
 		return gen.Pick(r, []string{"", " ", "\x90", "\"\x90\""})
+	case 5, 6:
+		// a flash message and an old input under the SAME key, in either order (plus repeats of a
+		// kind and an unrelated key): what the keyed readers Message(k) / OldInput(k) must tell apart
+		w.Count("cookie-key-collision")
+		key := gen.Pick(r, []string{"email", "name", "id", "", genStr(r, true)})
+		old := r.Bool()
+		if old {
+			w.Count("cookie-collision-old-first")
+		} else {
+			w.Count("cookie-collision-flash-first")
+		}
+		n := 2 + r.Intn(3)
+		var body []byte
+		for i := 0; i < n; i++ {
+			k := key
+			if i > 0 && r.Chance(1, 6) {
+				k = gen.Pick(r, []string{"other", "Email", key + "x"})
+			}
+			body = append(body, mpMsg(k, genStr(r, true), genLevel(r, true), old)...)
+			if r.Chance(3, 4) {
+				old = !old
+			}
+		}
+		return string(append(mpArr(n), body...))
 	}
 	n := r.Intn(4)
 	if r.Chance(1, 10) {
